@@ -31,7 +31,7 @@ pub const DEF: CheckDef = CheckDef {
     id: "C16",
     run,
     technique: "deviation-bounded exhaustive enumeration of import configurations (all configurations with <= d non-default dimensions out of 13) x exhaustive enumeration of all statements of <= n rows over a configuration-dependent row alphabet x all same-day/next-day date patterns; each case is imported by the real code as a tree (import::import + Txn::to_double_entry) and as text (ImportCmd::run on real files), both compared posting by posting with a reference importer in exact rational arithmetic; for asset accounts with a running-balance column the printed text behind an opening transaction is run through report::process",
-    rule: "case = (configuration, statement). Configuration dimensions (default first): layout {index,label,template '{N}'} x delimiter {',',tab,';'} x skip.head {0,2} x date format {%Y/%m/%d,%Y-%m-%d,%d.%m.%Y} x value columns {amount, credit+debit} x commodity column {absent,present} x running-balance column {present,absent} x note column {absent,present} x charge column {absent,present} x account-level default conversion {none (no secondary_commodity column), rate/secondary_amount/secondary_commodity columns with no commodity.conversion (built-in price_of_secondary/extract), price_of_secondary/compute, price_of_primary/extract, price_of_primary/compute, disabled: true} x rewrite-rule conversion on payee ^xfer {no rule, price_of_secondary/compute, price_of_primary/extract, disabled: true; the rule names the commodity itself when there is no secondary_commodity column} x account type {asset, liability} x row_order {old_to_new,new_to_old} (row_order is dimension 11, the rule dimension 12); ALL configurations with <= 2 (thorough <= 3) non-default dimensions. Statement: ALL sequences of <= 3 rows (thorough: <= 4 rows for configurations with <= 1 non-default dimension) over the alphabet {credit, debit, zero} + per present column {debit with empty balance cell, debit with a wrong balance; credit/debit in the other currency; credit/debit rows carrying the secondary cells (decided by the account default); credit/debit rows carrying the secondary cells AND matched by the rule (decided by the rule, over the default if any); a matched debit without secondary cells when the rule disables conversion; an unmatched debit with cells when there is no default; credit/debit with a charge; other-currency conversion debit; conversion debit with a charge} x EVERY assignment of same-day/next-day to rows 2..n; rows are written newest first when row_order=new_to_old. states = cases, transitions = transactions compared with RefImport (tree + text), validated = cases in which every judged value had exactly one acceptable answer",
+    rule: "case = (configuration, statement). Configuration dimensions (default first): layout {index,label,template '{N}'} x delimiter {',',tab,';'} x skip.head {0,2} x date format {%Y/%m/%d,%Y-%m-%d,%d.%m.%Y} x value columns {amount, credit+debit} x commodity column {absent,present} x running-balance column {present,absent} x note column {absent,present} x charge column {absent,present} x account-level default conversion {none (no secondary_commodity column), rate/secondary_amount/secondary_commodity columns with no commodity.conversion (built-in price_of_secondary/extract), price_of_secondary/compute, price_of_primary/extract, price_of_primary/compute, disabled: true, built-in modes + `commodity: GBP` (a commodity no statement cell shows)} x rewrite-rule conversion on payee ^xfer {no rule, price_of_secondary/compute, price_of_primary/extract, disabled: true, price_of_primary/extract + `commodity: GBP`; the rule names the commodity itself when there is no secondary_commodity column} x account type {asset, liability} x row_order {old_to_new,new_to_old} (row_order is dimension 11, the rule dimension 12); ALL configurations with <= 2 (thorough <= 3) non-default dimensions. Statement: ALL sequences of <= 3 rows (thorough: <= 4 rows for configurations with <= 1 non-default dimension) over the alphabet {credit, debit, zero} + per present column {debit with empty balance cell, debit with a wrong balance; credit/debit in the other currency; credit/debit rows carrying the secondary cells (decided by the account default); credit/debit rows carrying the secondary cells AND matched by the rule (decided by the rule, over the default if any); a matched debit without secondary cells when the rule disables conversion; a matched conversion debit whose secondary-commodity cell is empty when the rule names the commodity; an unmatched debit with cells when there is no default; credit/debit with a charge; other-currency conversion debit; conversion debit with a charge} x EVERY assignment of same-day/next-day to rows 2..n; rows are written newest first when row_order=new_to_old. states = cases, transitions = transactions compared with RefImport (tree + text), validated = cases in which every judged value had exactly one acceptable answer",
     assumptions: &[
         "okane's ledger parser is trusted to read the printed text back (C05/C15 decide that); report::process is trusted as the book-keeping referee of the end-to-end clause (C01/C02 decide that)",
         "DON'T-CARE: the counter-posting value of a row with a non-zero charge when no statement-supplied secondary amount exists (either 'opposite amount' or 'opposite amount net of the charge' is accepted); existence and rate of the charge posting; the sign of the balance assertion for a liability account; order of postings inside a transaction; payee/account of the counter-posting",
@@ -53,10 +53,18 @@ struct Spec {
     /// true: `amount: compute`; false: `amount: extract`
     compute: bool,
     disabled: bool,
+    /// the specification names the secondary commodity itself (`commodity: GBP`, never what the statement's
+    /// secondary-commodity cell says); DOC: "Overrides `secondary_commodity` with the given value"
+    named: bool,
 }
 
 impl Spec {
-    fn name(self) -> &'static str {
+    /// full name for signatures
+    fn name(self) -> String {
+        format!("{}{}", self.base_name(), if self.named { "+commodity" } else { "" })
+    }
+    /// coarse name for classes
+    fn base_name(self) -> &'static str {
         match (self.disabled, self.pri, self.compute) {
             (true, _, _) => "disabled",
             (false, false, false) => "sec-extract",
@@ -76,22 +84,28 @@ impl Spec {
         if self.disabled {
             v.push("disabled: true".into());
         }
+        if self.named {
+            v.push(format!("commodity: {}", NAMED));
+        }
         v
     }
 }
 
 const fn sp(pri: bool, compute: bool, disabled: bool) -> Spec {
-    Spec { pri, compute, disabled }
+    Spec { pri, compute, disabled, named: false }
+}
+const fn named(s: Spec) -> Spec {
+    Spec { named: true, ..s }
 }
 
 /// dimension 9: account-level default conversion. None = no secondary_commodity column, so the default can never
 /// apply; Some(sec-extract) = the three columns with NO `commodity.conversion` in the YAML (built-in default).
-const DEFAULTS: [Option<Spec>; 6] = [None, Some(sp(false, false, false)), Some(sp(false, true, false)), Some(sp(true, false, false)), Some(sp(true, true, false)), Some(sp(false, false, true))];
+const DEFAULTS: [Option<Spec>; 7] = [None, Some(sp(false, false, false)), Some(sp(false, true, false)), Some(sp(true, false, false)), Some(sp(true, true, false)), Some(sp(false, false, true)), Some(named(sp(false, false, false)))];
 /// dimension 12: `conversion` of the rewrite rule `payee: ^xfer` (None = no rule at all)
-const RULES: [Option<Spec>; 4] = [None, Some(sp(false, true, false)), Some(sp(true, false, false)), Some(sp(false, false, true))];
+const RULES: [Option<Spec>; 5] = [None, Some(sp(false, true, false)), Some(sp(true, false, false)), Some(sp(false, false, true)), Some(named(sp(true, false, false)))];
 
 /// number of alternatives per dimension (alternative 0 = default)
-const DIMS: [u8; 13] = [3, 3, 2, 3, 2, 2, 2, 2, 2, 6, 2, 2, 4];
+const DIMS: [u8; 13] = [3, 3, 2, 3, 2, 2, 2, 2, 2, 7, 2, 2, 5];
 const DIM_NAMES: [&str; 13] = ["layout", "delimiter", "skip", "date", "credit-debit", "commodity-col", "no-balance-col", "note-col", "charge-col", "conversion", "liability", "new-to-old", "rule-conversion"];
 
 #[derive(Clone, Copy, Debug)]
@@ -158,8 +172,8 @@ impl Cfg {
     fn conv_name(&self) -> String {
         match (self.default_conv(), self.rule_conv()) {
             (None, None) => "noconv".into(),
-            (Some(d), None) => format!("default-{}", d.name()),
-            (None, Some(r)) => format!("rule-{}", r.name()),
+            (Some(d), None) => format!("default-{}", d.base_name()),
+            (None, Some(r)) => format!("rule-{}", r.base_name()),
             (Some(d), Some(r)) => format!("rule-{}-over-default-{}", if r.disabled { "off" } else { "on" }, if d.disabled { "off" } else { "on" }),
         }
     }
@@ -222,6 +236,8 @@ fn configs(d: usize) -> Vec<Cfg> {
 const PRIMARY: &str = "USD";
 const OTHER: &str = "EUR";
 const SECONDARY: &str = "CHF";
+/// the commodity a conversion specification names explicitly; never appears in a statement cell
+const NAMED: &str = "GBP";
 const RATE: &str = "1.25";
 const FEE: &str = "2.50";
 
@@ -305,7 +321,7 @@ fn config_yaml(cfg: &Cfg) -> String {
     }
     if let Some(r) = cfg.rule_conv() {
         s.push_str("rewrite:\n  - matcher:\n      payee: \"^xfer\"\n    account: Assets:Wire\n    conversion:\n");
-        if !cfg.sec_ccy_col() && !r.disabled {
+        if !cfg.sec_ccy_col() && !r.disabled && !r.named {
             s.push_str(&format!("      commodity: {}\n", SECONDARY));
         }
         for l in r.yaml() {
@@ -340,6 +356,8 @@ struct Letter {
     fee: bool,
     /// the payee matches the rewrite rule `^xfer`
     rule: bool,
+    /// rate and secondary amount filled but the secondary-commodity cell is EMPTY (only the configured commodity exists)
+    noccy: bool,
 }
 
 impl Letter {
@@ -358,6 +376,9 @@ impl Letter {
         }
         if self.rule {
             s.push_str("-xfer");
+        }
+        if self.noccy {
+            s.push_str("-noccy");
         }
         if self.fee {
             s.push_str("-fee");
@@ -384,7 +405,7 @@ impl Letter {
 }
 
 fn alphabet(cfg: &Cfg) -> Vec<Letter> {
-    let l = |kind| Letter { kind, other: false, bal: BalCell::Right, conv: false, fee: false, rule: false };
+    let l = |kind| Letter { kind, other: false, bal: BalCell::Right, conv: false, fee: false, rule: false, noccy: false };
     let mut v = vec![l(Kind::Credit), l(Kind::Debit), l(Kind::Zero)];
     let has_default = cfg.default_conv().is_some();
     let rule = cfg.rule_conv();
@@ -408,6 +429,10 @@ fn alphabet(cfg: &Cfg) -> Vec<Letter> {
         if !has_default {
             // cells filled, not matched, and no default that could apply: a plain row
             v.push(Letter { conv: true, ..l(Kind::Debit) });
+        }
+        if r.named && cfg.sec_ccy_col() {
+            // matched by a rule that names the commodity; the statement's secondary-commodity cell is empty
+            v.push(Letter { conv: true, rule: true, noccy: true, ..l(Kind::Debit) });
         }
         if r.disabled {
             // matched by a rule that disables conversion, secondary cells empty: a plain row.
@@ -575,7 +600,23 @@ fn ref_import(cfg: &Cfg, letters: &[Letter], same: &[bool]) -> RefStatement {
             (_, _, None, true) => "cells-without-default".to_string(),
             _ => "no-conversion-cells".to_string(),
         };
-        let sec_ccy = if l.other && cfg.sec_ccy_col() { PRIMARY } else { SECONDARY }.to_string();
+        // what the statement's secondary-commodity cell says (None: no such column)
+        let cell_ccy: Option<&str> = if !cfg.sec_ccy_col() {
+            None
+        } else if l.noccy {
+            Some("")
+        } else if l.other {
+            Some(PRIMARY)
+        } else {
+            Some(SECONDARY)
+        };
+        // DOC (config.rs, CommodityConversionSpec::commodity): "Overrides `secondary_commodity` with the given value";
+        // import.ja.md: without it the `secondary_commodity` field is used. An enabled rule without the column names CHF.
+        let spec_names = applies && eff.map(|e| e.named).unwrap_or(false);
+        if l.noccy && !spec_names {
+            panic!("harness bug: empty secondary-commodity cell without a configured commodity in the alphabet");
+        }
+        let sec_ccy = if spec_names { NAMED } else { cell_ccy.unwrap_or(SECONDARY) }.to_string();
         let convert = |x: Q| if eff_pri { x.abs().mul(rate) } else { x.abs().div(rate) };
         let mut conv_cells = None;
         let (counter_values, counter_ccy, acct_rate, counter_rate);
@@ -583,7 +624,7 @@ fn ref_import(cfg: &Cfg, letters: &[Letter], same: &[bool]) -> RefStatement {
             // exact figure of the statement; with amount=compute the statement shows a rounded figure that must be ignored
             let exact = if applies { convert(net) } else { net.abs().div(rate) };
             let cell = if applies && eff_compute { exact.add(Q::parse("0.01")) } else { exact };
-            conv_cells = Some((RATE.to_string(), format!("{}", cell), sec_ccy.clone()));
+            conv_cells = Some((RATE.to_string(), format!("{}", cell), cell_ccy.unwrap_or("").to_string()));
         }
         if applies {
             counter_ccy = sec_ccy.clone();
